@@ -79,6 +79,26 @@ def run(tier):
             for kind, words in arggen.mutations(g, cfg, line):
                 acts.append(eval_action(words, mode="groups", tag={"k": "mut", "m": kind}))
         blocks.append((cfg, acts))
+    # which member gets a free value: multi-value arguments, flags, valued arguments and a positional spread over the members
+    for _ in range(80 if tier == "quick" else 2500):
+        ngrp = g.r.randint(2, 3)
+        cfg = g.cfg(nargs=g.r.randint(3, 6), kinds=["flag", "int", "vecint", "vecstr", "listint"], constraints=False, allow_pos=False, groups=ngrp)
+        for a in cfg["args"]:
+            if arggen.is_cont(a["kind"]):
+                a["multi"] = True
+            a["mand"] = False
+        if g.r.random() < 0.6:
+            p = arggen.new_arg(g.r.choice(["str", "vecstr"])); p["pos"] = True; p["card"] = {"t": "none", "a": 0, "b": 0}; p["grp"] = g.r.randrange(ngrp)
+            cfg["args"].append(p)
+        acts = []
+        for _ in range(nlines + 2):
+            line = gen_valid(g, cfg)
+            if line is None:
+                continue
+            words = g.spell_line(cfg, line)
+            acts.append(eval_action(words, mode="groups", tag={"k": "line", "line": line_json(line)}))
+            acts.append(eval_action(words + ["stray9"], mode="groups", tag={"k": "mut", "m": "stray_value"}))
+        blocks.append((cfg, acts))
     # key tables with collisions spread over the members
     stems = ["in", "input", "out", "output", "v", "verbose", "num"]
     for _ in range(60 if tier == "quick" else 1500):
